@@ -644,9 +644,40 @@ def sched_handover(ctx, which=(FB, FF)):
                     t = M.clo.text(cnode.args[3], st)
                     tm = '%s.index' % M.f.params[0]
                     want = '%s[%s] - %s[%s]' % (tm, M.n, tm, M.c)
-                    ctx.ob('SCHED-HANDOVER', t == want, None,
+                    t_norm = _strip_array_wrappers(t)
+                    # an index-aligned table (equality guard that raises) is the same axis
+                    from .idxdom import _analyse
+                    tabs, _, _ = _analyse(M.f)
+                    for other in M.f.params[1:]:
+                        if tabs.find(other) == tabs.find(M.f.params[0]):
+                            t_norm = t_norm.replace('%s.index' % other, tm)
+                    ctx.ob('SCHED-HANDOVER', t_norm == want, None,
                            'propagation step = times[n] - times[c]', f=f, node=cnode,
                            key='dt', why='propagation step is `%s`, expected `%s`' % (t, want))
+
+
+def _strip_array_wrappers(text):
+    """np.asarray(X) / np.array(X) / X.values / X.to_numpy() -> X (same element values)"""
+    class T(ast.NodeTransformer):
+        def visit_Call(self, n):
+            self.generic_visit(n)
+            if norm_text(n.func) in ('np.asarray', 'np.array', 'numpy.asarray', 'numpy.array') \
+                    and len(n.args) == 1 and not n.keywords:
+                return n.args[0]
+            if isinstance(n.func, ast.Attribute) and n.func.attr == 'to_numpy' and not n.args:
+                return n.func.value
+            return n
+
+        def visit_Attribute(self, n):
+            self.generic_visit(n)
+            if n.attr == 'values':
+                return n.value
+            return n
+    try:
+        tree = ast.parse(text, mode='eval')
+    except SyntaxError:
+        return text
+    return norm_text(T().visit(tree).body)
 
 
 def _top_stmt(body, node):
